@@ -360,7 +360,18 @@ def h_trust_decision(ctx):
         if ctx.flag("restart_before_the_decision"):
             env.die()
             store = env.open()
-        got = store.isTrustedIdentity(r1, c13.Rec(serialized=k))
+        # another process (a second client on the profile, a backup tool) may hold the file while the decision is made: the lookup then
+        # fails with "database is locked" -- a decision that could not be made is reported, it is not a yes
+        import sqlite3 as _sqlite3
+        busy = ctx.flag("store_busy_during_the_decision")
+        if busy:
+            b.armed, b.busy, b.crash_at, b.count = True, True, 0, 0
+        try:
+            got = store.isTrustedIdentity(r1, c13.Rec(serialized=k))
+        except _sqlite3.OperationalError:
+            b.armed = False
+            return [("a lookup that failed is reported to the caller (no decision)", True)]
+        b.armed = b.busy = False
         obs = [("a key presented for a pinned contact is trusted iff it is that contact's pinned key", _iff(core.eq(got, True), H.rope_eq(k, k1)))]
         obs.append(("a contact without a pin is trusted on first use", core.eq(store.isTrustedIdentity(r3, c13.Rec(serialized=k)), True)))
         return obs
